@@ -470,6 +470,9 @@ func main() {
 		timeouts = 0
 		runAggCases(r, n, nil)
 	}
+	if mode == "all" || mode == "window" {
+		runWindowCases(gen.FromEnv(89), n/4+5)
+	}
 	if mode == "all" || mode == "exec" {
 		runExecCases(r)
 	}
